@@ -1,4 +1,5 @@
 import Cell2v.Lemmas.Mailbox
+import Cell2v.Lemmas.MailboxDrain
 /-!
 C09 — property theorems (actor mailbox).  All statements quantify over every
 schedule `ls : List Fine.Lbl` of the fine model — an arbitrary interleaving of
@@ -79,12 +80,7 @@ theorem system_first (s s' : Fine.St) (l : Fine.Lbl) (hf : Fine.fire s l = some 
 theorem wakeup_invariant_inductive (s s' : Abs.St) (l : Abs.Lbl) (h : Abs.MInv s) (hf : Abs.fire s l = some s') :
     Abs.MInv s' := Abs.inv_step s s' l h hf
 
-/-- a label that is neither a new post nor the helper's sleep stutter: a step of a thread that already exists -/
-def isInternal : Fine.Lbl → Bool
-  | .pushU _ => false
-  | .pushS _ _ => false
-  | .helperSleep => false
-  | _ => true
+open Cell2v.Mailbox.Fine (isInternal)
 
 theorem consumer_can_step (s : Fine.St) (hc : s.c ≠ .wait) : ∃ l, isInternal l = true ∧ (Fine.fire s l).isSome = true := by
   cases hcc : s.c with
@@ -142,6 +138,25 @@ theorem pending_work_can_progress (s : Fine.St) (h : Reachable s)
         refine ⟨by omega, by omega, by omega, by omega, by omega, hd, by simp [h7, Fine.absPc], by simpa using h6⟩
       exact ⟨.take, rfl, by simp [Fine.fire, h7, h8]⟩
     · exact consumer_can_step s h7
+
+/-- **every posted message is eventually processed, without a further post** (possibility form): from EVERY reachable
+state — whatever posters are half-way through `PostUserMessage`/`PostSystemMessage`, wherever the consumer is, whether
+a smoothing pause is pending — there is a schedule consisting only of steps of threads that already exist (no new post,
+no helper stutter) that ends in a quiescent state in which every system message posted so far has been handed over and,
+unless the mailbox is suspended, every user message too, in post order.  The schedule is explicit (`Fine.next`: posters
+finish, the helper wakes, the consumer runs) and its length is bounded by the potential `Fine.Phi`, which each of its
+steps decreases.  What this does not say: that EVERY fair schedule gets there (the model lets the frame budget be
+declared exhausted at any iteration, so an adversarial clock could pause for ever; Go's scheduler fairness is assumed). -/
+theorem can_always_drain (s : Fine.St) (h : Reachable s) :
+    ∃ ls s', (∀ l ∈ ls, isInternal l = true) ∧ Fine.runL s ls = some s' ∧ Reachable s' ∧
+      Abs.Quiescent (Fine.abs s') ∧ s'.dlvS = s.pushedS ∧ (s'.susp = false → s'.dlvU = s.pushedU) := by
+  obtain ⟨ls, s', h1, h2, _, h4⟩ := Fine.drain (Fine.Phi s) s (Nat.le_refl _) (reachable_inv s h)
+  have hr : Reachable s' := by
+    obtain ⟨l0, hl0⟩ := h
+    exact ⟨l0 ++ ls, Fine.runL_append l0 ls _ _ _ hl0 h2⟩
+  obtain ⟨d1, d2⟩ := quiescent_all_delivered s' hr h4
+  obtain ⟨p1, p2⟩ := Fine.internal_run_keeps_pushed ls s s' h2 h1
+  exact ⟨ls, s', h1, h2, hr, h4, by rw [d1, p2], fun hs => by rw [d2 hs, p1]⟩
 
 /-- non-vacuity: a reachable state with a poster parked between the consumer's
 "store idle" and its counter re-read (the narrow window), and a reachable
